@@ -15,6 +15,16 @@
 //!   c19 edt <f64 bits>                       helper::date::excel_to_date_time_object_checked -> "Y M D h m s" | none;
 //!                                            oracle: the panicking public excel_to_date_time_object agrees (same value,
 //!                                            panics exactly where the checked one is None)
+//!   c19 disp <n> <f64 bits> <hex value text> <hex rem> <hex hours> <hex hoursAbs>
+//!                                            numeric cell with built-in format id n -> `ok <hex text>` | `ok ~` | `panic`,
+//!                                            against the dispatcher model (Umya/Model/NumFmtDispatch.lean).  rem / hours /
+//!                                            hoursAbs = Display texts of `abs % 1`, `* 24`, `abs * 24` (what the code
+//!                                            computes with the double; re-checked here).  The FULL text is compared except
+//!                                            where the model does not compute it (fraction formatter on a non-usize value:
+//!                                            `ok ~`, the text travels as information).  Oracle: no panic.
+//!   c19 dispc <hex code> <f64 bits> <hex value text> <hex rem> <hex hours> <hex hoursAbs>
+//!                                            the same for a custom format code (exploration beyond the built-in table;
+//!                                            replays the quoted-literal witness of C19_quoted_literal_code_panics)
 //!
 //! The oracle (`reference`) is written from the property text: exact integer arithmetic (u128) on the
 //! decimal text of the value; it shares no code with the library or with the Lean model.
@@ -435,6 +445,104 @@ pub fn exec(out: &mut Out, line: &str) -> (String, bool) {
                 }
             }
         }
+        "disp" | "dispc" if a.len() == 8 => {
+            let builtin = a[1] == "disp";
+            let bits: u64 = a[3].parse().unwrap();
+            let num = f64::from_bits(bits);
+            let text = String::from_utf8(unhex(a[4])).unwrap();
+            let rem = String::from_utf8(unhex(a[5])).unwrap();
+            let hours = String::from_utf8(unhex(a[6])).unwrap();
+            let hours_abs = String::from_utf8(unhex(a[7])).unwrap();
+            if !num.is_finite()
+                || num.to_string() != text
+                || (num.abs() % 1f64).to_string() != rem
+                || (num * 24f64).to_string() != hours
+                || (num.abs() * 24f64).to_string() != hours_abs
+            {
+                return ("bad-op".into(), false);
+            }
+            let mut c = cell_with(&text, Some(num));
+            let (label, code) = if builtin {
+                let id: u32 = a[2].parse().unwrap();
+                if guard(|| {
+                    let mut probe = Cell::default();
+                    probe.get_style_mut().get_number_format_mut().set_number_format_id(id);
+                })
+                .is_err()
+                {
+                    out.count(&format!("disp.id.{:02}.not-in-table", id));
+                    return ("noid".into(), false);
+                }
+                c.get_style_mut().get_number_format_mut().set_number_format_id(id);
+                let code = c.get_style().get_number_format().map(|f| f.get_format_code().to_string()).unwrap_or_default();
+                (format!("id.{:02}", id), code)
+            } else {
+                let code = String::from_utf8(unhex(a[2])).unwrap();
+                c.get_style_mut().get_number_format_mut().set_format_code(code.clone());
+                ("custom".to_string(), code)
+            };
+            let r = guard(|| c.get_formatted_value());
+            // the branch the code is expected to take (information; the model reports the branch it followed)
+            let in_range = excel_to_date_time_object_checked(&num, None).is_some();
+            let single = !code.contains(';');
+            // (with several sections the formatters see the absolute value)
+            let whole = if single { text.parse::<usize>().is_ok() } else { text.trim_start_matches('-').parse::<usize>().is_ok() };
+            let fraction_code = code.contains("?/?");
+            let branch = if code == "General" {
+                "general"
+            } else if code == "@" {
+                "text"
+            } else if builtin && DATE_IDS.contains(&a[2].parse::<u32>().unwrap()) {
+                if in_range { "date" } else { "date-out-of-range" }
+            } else if fraction_code {
+                if whole { "fraction-whole" } else { "fraction" }
+            } else if single && code.ends_with('%') {
+                "percent"
+            } else if single && code.starts_with('"') && code.ends_with('"') {
+                "literal"
+            } else if code.contains('0') && !(code.contains(';') && num == 0.0 && code.matches(';').count() >= 2) {
+                "number"
+            } else {
+                "number-raw"
+            };
+            // where the model computes no text (float printing inside the fraction formatter; a quoted numeric literal)
+            let text_compared =
+                !(branch == "fraction" || (branch == "literal" && code.trim_matches('"').parse::<f64>().is_ok()));
+            out.count(&format!("disp.value.{}", value_kind(num, &text)));
+            match r {
+                Ok(s) => {
+                    out.count(&format!("disp.{}.ok", label));
+                    out.count(&format!("disp.branch.{}", branch));
+                    out.count(if text_compared { "disp.text-compared" } else { "disp.class-compared" });
+                    if builtin {
+                        out.oracle_ok();
+                    }
+                    if text_compared {
+                        (format!("ok {} ## {}", hex(&s), branch), true)
+                    } else {
+                        (format!("ok ~ ## {} {}", branch, hex(&s)), true)
+                    }
+                }
+                Err(_) => {
+                    out.count(&format!("disp.{}.panic", label));
+                    out.count(&format!("disp.branch.{}.panic", branch));
+                    if builtin {
+                        out.oracle_fail(
+                            Fail::new("builtin-panic")
+                                .with("op", line)
+                                .with("id", a[2])
+                                .with("code", &code)
+                                .with("value", &text)
+                                .with("branch", branch)
+                                .with("magnitude", if in_range { "ordinary" } else { "serial-beyond-chrono-range" }),
+                        );
+                    } else {
+                        out.count("explore.panic.custom-code");
+                    }
+                    ("panic".into(), !builtin)
+                }
+            }
+        }
         "edt" if a.len() == 3 => {
             let bits: u64 = a[2].parse().unwrap();
             let num = f64::from_bits(bits);
@@ -488,6 +596,68 @@ const SERIAL_EDGES: &[f64] = &[
     2958466.0, 3e6, 5e6, 1e7, 5e7, -1.0, -0.5, -2958465.0, -1e7, -5e7, 0.0, 0.999995, 59.0, 60.0, 61.0, 45435.25,
     f64::MIN_POSITIVE, 5e-324, -5e-324, 1e-300,
 ];
+
+/// coarse class of a value of the `disp` stream (for the counters)
+fn value_kind(num: f64, text: &str) -> &'static str {
+    if num == 0.0 {
+        if text.starts_with('-') { "minus-zero" } else { "zero" }
+    } else if num.fract() == 0.0 {
+        if num.abs() >= 18446744073709551616.0 {
+            if num < 0.0 { "whole.negative.ge-2^64" } else { "whole.ge-2^64" }
+        } else if num < 0.0 {
+            "whole.negative"
+        } else {
+            "whole"
+        }
+    } else if num.abs() < 1e-6 {
+        "tiny"
+    } else if text.len() >= 17 {
+        "long-fraction"
+    } else if num < 0.0 {
+        "fraction.negative"
+    } else {
+        "fraction"
+    }
+}
+
+/// the value stream of the dispatcher tie: whole numbers, negative whole numbers, both zeros, halves, tiny and huge
+/// magnitudes, the usize / u64 edge (the fraction codes test `parse::<usize>`), values at the rounding boundaries of
+/// 0 / 1 / 2 decimals and of percentages, long fractions, serials at the edges of chrono's calendar
+const DISP_VALUES: &[f64] = &[
+    0.0, -0.0, 1.0, -1.0, 5.0, -5.0, 7.0, 10.0, -10.0, 59.0, 60.0, 61.0, 100.0, 999.0, 1000.0, -1000.0, 1234567.0, -1234567.0,
+    45435.0, 2958465.0, 2958466.0, 4294967295.0, 4294967296.0, 9007199254740992.0, 9007199254740993.0,
+    18446744073709549568.0, 18446744073709551616.0, -18446744073709551616.0, 36893488147419103232.0, 1e15, 1e16, 1e19, 1e20,
+    -1e20, 1e22, 1e100, 1e300, -1e300, f64::MAX, f64::MIN, 0.5, -0.5, 1.5, -1.5, 2.5, 0.25, 0.75, 0.125, 0.1, 0.2, 0.3, 0.7,
+    0.05, 0.005, 0.0005, 0.004, 0.0049999, 0.0050001, 0.045, 0.05000000000000001, 0.49, 0.4999999999999999, 0.5000000000000001,
+    0.95, 0.995, 0.9995, 0.99995, 0.994, 0.9949999999999999, 9.5, 9.95, 99.5, 99.95, 999.5, 999.995, 9999.5, 999999.5,
+    -0.001, -0.004, -0.005, -0.0000001, 1e-7, 4.9e-7, 5e-7, 1e-8, 1e-300, 5e-324, -5e-324, f64::MIN_POSITIVE, 2.2250738585072014e-308,
+    1.005, 1.015, 1.045, 2.675, 8.325, 8.335, 1.115, 0.285, 0.015, 0.025, 0.035, 0.1234, 0.12345, 0.123456, 0.0012345,
+    1234.5678, -1234.5678, 1234567.891, -1234567.891, 1234567.895, 12345.678901234, 33.333333333333336, 0.30000000000000004,
+    1.7976931348623157, 0.1234567890123456, 123456789.12345678, 0.000123456789012345, 1.00000000000001, 44349.211134259262,
+    45435.25, 45435.999994, 45435.999995, 0.999995, 0.99999, -45435.5, 95051805.0, 95051805.99998, 95051806.0, -96465292.0,
+    -96465293.0, 1e8, -1e8, 106751991167.0, 106751991168.0, 9223372036854775807.0, -9223372036854775808.0,
+];
+
+/// custom format codes for `dispc` (exploration beyond the built-in table): the quoted-literal witness and its
+/// neighbours, sections beyond five, colours, currency prefixes, scaling commas
+const DISP_CUSTOM_CODES: &[&str] = &[
+    "\"N/A\"", "\"12\"", "\"\"", "\"1e3\"", "0;0;0;0;0;[Red]0", "0;0;0;0;[Red]0", "[Red]0.00", "[Blue]#,##0;[Red]-#,##0", "$#,##0.00",
+    "$#,##0_);($#,##0)", "0.0,,,,", "#,", "0.00 \"kg\"", "\\(0\\)", "0.0#", "#", "000.00", "# ?/?;-# ?/?", "[h]:mm", "yyyy-mm-dd",
+    "yyyy\"T\"hh", "hh:mm:ss AM/PM", "[$-F800]dddd, mmmm dd, yyyy", "0.00%;[Red]-0.00%", "General;0",
+];
+
+fn disp_line(op: &str, key: &str, x: f64) -> String {
+    format!(
+        "c19 {} {} {} {} {} {} {}",
+        op,
+        key,
+        x.to_bits(),
+        hex(&x.to_string()),
+        hex(&(x.abs() % 1f64).to_string()),
+        hex(&(x * 24f64).to_string()),
+        hex(&(x.abs() * 24f64).to_string())
+    )
+}
 
 // ---------------------------------------------------------------------------------------------
 // generators
@@ -733,6 +903,30 @@ pub fn gen(tier: Tier, seed: u64) -> Vec<String> {
     for id in 0..=70u32 {
         for x in &serials {
             v.push(format!("c19 date {} {} {}", id, x.to_bits(), hex(&x.to_string())));
+        }
+    }
+    // 8. the dispatcher tie: every id 0..=70 x the value stream (+ random structured values and arbitrary doubles);
+    //    custom codes x a few values (exploration)
+    let mut dvals: Vec<f64> = DISP_VALUES.to_vec();
+    let n_drand = if thorough { 400 } else { 40 };
+    for i in 0..n_drand {
+        let x = if i % 2 == 0 {
+            values[rng.below(values.len() as u64) as usize].parse::<f64>().unwrap()
+        } else {
+            f64::from_bits(rng.next() & 0x7fef_ffff_ffff_ffff | (rng.next() & (1 << 63)))
+        };
+        if x.is_finite() {
+            dvals.push(x);
+        }
+    }
+    for id in 0..=70u32 {
+        for x in &dvals {
+            v.push(disp_line("disp", &id.to_string(), *x));
+        }
+    }
+    for code in DISP_CUSTOM_CODES {
+        for x in [1.0, -1.0, 0.0, 1234.5678, -1234.5678, 0.5, 45435.25, 1e20] {
+            v.push(disp_line("dispc", &hex(code), x));
         }
     }
     v
